@@ -255,3 +255,17 @@ V("C16", "keep-pc", IMG, '    for hn in "CDELT1 CDELT2 PC1_1 PC1_2 PC2_1 PC2_2".
 V("C16", "desc-no-flip", IMG, "        self.wcs = _flip_wcs_parity(self.wcs, self.height)\n        return self", "        return self", "C16.R2")
 V("C16", "P-neg-spelling", IMG, '    h["CD1_2"] *= -1\n    h["CD2_2"] *= -1', '    h["CD1_2"] = -h["CD1_2"]\n    h["CD2_2"] = 0 - h["CD2_2"]', "HOLDS")
 V("C16", "P-get-instead-of-setdefault", IMG, '    h["CD2_1"] = h["CDELT2"] * h.setdefault("PC2_1", 0.0)', '    h["CD2_1"] = h.get("PC2_1", 0.0) * h["CDELT2"]', "HOLDS")
+
+# ---------------------------------------------------------------- C17
+V("C17", "xy-in-filename", PYR, '            d, "{}_{}.{}".format(iy, ix, format or self._default_format)', '            d, "{}_{}.{}".format(ix, iy, format or self._default_format)', "C17.R1")
+V("C17", "scheme-edited", PYR, '            self._scheme = "{1}/{3}/{3}_{2}"', '            self._scheme = "{1}/{2}/{2}_{3}"', "C17.R1")
+V("C17", "no-dot", BLD, '        self.imgset.file_type = "." + pio.get_default_format()', '        self.imgset.file_type = pio.get_default_format()', "C17.R2")
+V("C17", "depth-plus-one", BLD, "        self.imgset.tile_levels = depth\n", "        self.imgset.tile_levels = depth + 1\n", "C17.R3")
+V("C17", "revert-reuse-fix", FTIL, "                else:\n                    self._load_builder_from_index()\n\n                return", "\n                return", "C17.R5")
+V("C17", "emit-first", "toasty/pipeline/__init__.py", "            src.process(uniq_id, cdata, cachedir, builder)\n            cdata.close()\n            builder.write_index_rel_wtml()", "            builder.write_index_rel_wtml()\n            src.process(uniq_id, cdata, cachedir, builder)\n            cdata.close()", "C17.R4")
+V("C17", "binding-swapped", PYR, "        return self._tile_path(level, ix, iy, format=format, makedirs=makedirs)", "        return self._tile_path(level, iy, ix, format=format, makedirs=makedirs)", "C17.R1")
+V("C17", "not-injective", PYR, '            "L{}X{}Y{}.{}".format(level, ix, iy, format or self._default_format),', '            "L{}{}{}.{}".format(level, ix, iy, format or self._default_format),', "C17.R1")
+V("C17", "study-levels", STUDY, "        imgset.tile_levels = self._tile_levels\n", "        imgset.tile_levels = self._tile_levels + 1\n", "C17.R3")
+V("C17", "P-fstring-path", PYR, '            "L{}X{}Y{}.{}".format(level, ix, iy, format or self._default_format),', '            f"L{level}X{ix}Y{iy}.{format or self._default_format}",', "HOLDS")
+V("C17", "P-join-flat", PYR, "        d = os.path.join(self._base_dir, level, iy)\n        if makedirs:\n            os.makedirs(d, exist_ok=True)\n        return os.path.join(\n            d, \"{}_{}.{}\".format(iy, ix, format or self._default_format)\n        )",
+  "        d = os.path.join(self._base_dir, level, iy)\n        if makedirs:\n            os.makedirs(d, exist_ok=True)\n        return os.path.join(self._base_dir, level, iy, iy + \"_\" + ix + \".\" + (format or self._default_format))", "HOLDS")
